@@ -531,6 +531,14 @@ impl Session {
                     crate::verif::point("hf.syn.between_maps").await;
                     {
                         let mut streams = self.streams.write().await;
+                        // close() marks the session closed before it drains this
+                        // table under the same lock; a stream registered after
+                        // that would never be released, so refuse it here.
+                        if self.is_closed() {
+                            drop(streams);
+                            self.stream_receive_tx.write().await.remove(&stream_id);
+                            return Err(AnyTlsError::SessionClosed);
+                        }
                         streams.insert(stream_id, stream.clone());
                     }
 
